@@ -309,6 +309,13 @@ def run_shard(shard, tier):
                         bad = _check_sections(env, sections)
                         if bad:
                             acc.violation(f"{bad}/{style}", f"{style}: malformed section ({bad}) for {text!r}", {"style": style, "text": text, "parent": pname, "options": opts}, None, size=len(seq))
+                        if style == "numpy":
+                            # every section other than free text was opened by a header line with its underline: no more sections than underlines
+                            n_under = sum(1 for l in text.split("\n") if l.strip() and set(l.strip()) == {"-"})
+                            n_sec = sum(1 for sct in sections if sct.kind.value != "text")
+                            if n_sec > n_under:
+                                acc.violation("phantom-section/numpy", f"numpy: {n_sec} non-text sections ({[sct.kind.value for sct in sections]}) from a text with {n_under} underlined header(s): {text!r}",
+                                              {"style": style, "text": text, "parent": pname, "options": opts}, None, size=len(seq))
                         if ds.value != value0 or ds.lines != lines0:
                             acc.violation(f"mutated/docstring/{style}", f"{style}: docstring value/lines changed by parsing {text!r}", {"style": style, "text": text, "parent": pname, "options": opts}, None, size=len(seq))
                         outcomes.add(",".join(s.kind.value[:4] for s in sections) if len(sections) < 4 else f"{len(sections)}sections")
@@ -331,6 +338,8 @@ def run_shard(shard, tier):
     if part == 0:
         _run_annotations(env, acc, style, tier)
         _run_line_separators(env, acc, style)
+        _run_reparse(env, acc, style)
+        _run_section_sequences(env, acc, style)
     if env["mod"].as_json(full=False) != mod_json0:
         acc.violation(f"mutated/parent/{style}", f"{style}: the parent objects' JSON changed while parsing (shard {part})", {"style": style, "shard": part})
     return acc.result()
@@ -361,6 +370,74 @@ def _run_line_separators(env, acc, style):
             acc.observe([s.kind.value for s in sections])
             if not ok:
                 acc.violation(f"prose/{style}/line-separator/{sep.encode('unicode_escape').decode()}", f"{style}: prose {text!r} came back as {[(s.kind.value, s.value) for s in sections]!r}, the cleaned text is {cleaned!r}", case, None, size=3)
+
+
+REPARSE_TEXTS = {
+    "google": ["Summary.\n\nArgs:\n    a: desc\n\nReturns:\n    int: desc", "Only prose now.", "Other.\n\nRaises:\n    ValueError: d", ""],
+    "numpy": ["Summary.\n\nParameters\n----------\na : int\n    desc\n\nReturns\n-------\nint\n    desc", "Only prose now.", "Other.\n\nRaises\n------\nValueError\n    d", ""],
+    "sphinx": ["Summary.\n\n:param a: desc\n:returns: desc", "Only prose now.", "Other.\n\n:raises ValueError: d", ""],
+}
+
+
+def _run_reparse(env, acc, style):
+    """The same Docstring object parsed again after its value was replaced (what editing extensions do): the second answer is the one a fresh object gives for the new text."""
+    g = env["griffe"]
+    fn = env["fns"][style]
+    texts = REPARSE_TEXTS[style]
+    dump = lambda secs: json.dumps([s.as_dict() for s in secs], cls=env["enc"], sort_keys=True)  # noqa: E731
+    for pname in ("none", "function"):
+        parent = env["parents"][pname]
+        for t1 in texts:
+            for t2 in texts:
+                if t1 == t2:
+                    continue
+                case = {"style": style, "family": "reparse", "first": t1, "second": t2, "parent": pname}
+                try:
+                    ds = g.Docstring(t1, lineno=1, parent=parent)
+                    fn(ds)
+                    ds.value = t2
+                    again = dump(fn(ds))
+                    fresh = dump(fn(g.Docstring(t2, lineno=1, parent=parent)))
+                except Exception as e:  # noqa: BLE001
+                    acc.violation(f"raise/{type(e).__name__}@{style}/reparse", f"{style}: parsing again after replacing the value raised {e!r}", case, None, size=3)
+                    continue
+                acc.case(case, outcome=style + ":reparse-" + ("same" if again == fresh else "stale"), nontrivial=True)
+                acc.observe(again == fresh)
+                if again != fresh:
+                    acc.violation(f"reparse/{style}/stale", f"{style}: after docstring.value = {t2!r} the second parse gives {again[:160]}, a fresh docstring gives {fresh[:160]}", case, None, size=3)
+
+
+def _run_section_sequences(env, acc, style):
+    """Two and three well-separated sections in a row, every ordered choice of headers (admonition-style ones included): state kept by the parser's main loop
+    from one section must not leak into the next (no section that the text does not open)."""
+    if style == "sphinx":
+        return
+    g = env["griffe"]
+    fn = env["fns"][style]
+    heads = NUMPY_HEADERS if style == "numpy" else [h for h in GOOGLE_HEADERS if h != "Note: Title"]
+
+    def block(h):
+        if style == "numpy":
+            return f"{h}\n{'-' * len(h)}\na : int\n    desc"
+        return f"{h}\n    a (int): desc"
+
+    combos = [(a, b) for a in heads for b in heads] + [(a, b, c) for a in heads for b in heads for c in heads if a in ("Notes", "See Also", "Note:", "Examples", "Examples:")]
+    for combo in combos:
+        text = "Summary line.\n\n" + "\n\n".join(block(h) for h in combo)
+        case = {"style": style, "family": "section-sequences", "text": text}
+        try:
+            sections = fn(g.Docstring(text, lineno=1, parent=env["parents"]["function"]))
+        except Exception as e:  # noqa: BLE001
+            acc.violation(f"raise/{type(e).__name__}@{style}/section-sequences", f"{style} parser raised {e!r} on {text!r}", case, None, size=len(combo))
+            continue
+        bad = _check_sections(env, sections)
+        if bad:
+            acc.violation(f"{bad}/{style}", f"{style}: malformed section ({bad}) for {text!r}", case, None, size=len(combo))
+        n_sec = sum(1 for sct in sections if sct.kind.value != "text")
+        acc.case(case, outcome=f"{style}:sequence-{'ok' if n_sec <= len(combo) else 'phantom'}", nontrivial=True)
+        acc.observe([sct.kind.value for sct in sections])
+        if n_sec > len(combo):
+            acc.violation(f"phantom-section/{style}", f"{style}: {n_sec} non-text sections ({[sct.kind.value for sct in sections]}) from a text that opens {len(combo)}: {text!r}", case, None, size=len(combo))
 
 
 def _run_annotations(env, acc, style, tier):
